@@ -661,6 +661,8 @@ def instantiate(ground, qfacts, registry, rounds=2, hints=(), max_insts=6000, us
                 if key in seen_pairs:
                     continue
                 seen_pairs.add(key)
+                if not any(x.sort().kind() == z3.Z3_ARRAY_SORT and not x.eq(y) for x, y in zip(a1.children(), a2.children())):
+                    continue        # same array arguments: plain congruence, which the solver has anyway
                 conds = []
                 for x, y in zip(a1.children(), a2.children()):
                     if x.sort().kind() == z3.Z3_ARRAY_SORT:
